@@ -33,6 +33,7 @@ ASSUMPTIONS = [
     'exitReason() is the per-exit oracle (their monitor loop is not driven here, see C13)',
     'when run() is made to raise inside Engine.restart the exit reason the real engine had recorded is frozen on exitReason() so that the '
     'engine still looks dead when the final state is delivered',
+    'a raising restart hook / a hook module failing at import raises an exception produced by a harness-selected action (61 actions: lazy imports of missing bindings, ImportError family, data errors, IOError aliases and subclasses); the model is told its MRO only; BaseException-only exceptions (KeyboardInterrupt, SystemExit) are not generated',
     'duck-typed job/specification objects; ComponentState is the real class with its constructor bypassed',
     'threads: RepeatingEngine.restart thread is not started (threading.Thread replaced); time.sleep is a no-op',
     'configuration side: layering and variable resolution of workflowAttributes.restartHookOn / shutdownOn are the real code\'s '
@@ -1036,7 +1037,7 @@ def run(ctx):
                 'initiated - after a refusal no further exit is handled) over 8 exit reasons x {hook says possible, not required, raises} '
                 'for a grid of configurations; plus the raising-hook family (every exception, raised by Restart() when called / by the hook module while it is imported, and a module without Restart, x default / named / budgeted / not-consulted hook configurations, runs of 3-7 listed exits); plus long runs of failed submissions (5-14 exits, reported by '
                 'the task / launch raising / mixed, with and without a Success or a continuation restart in between); plus random '
-                'configurations x random histories (length <= 12, all 11 hook behaviours, a raising hook raising one of ~65 exceptions (import family of a lazily importing hook, programming / data errors, IOError aliases and subclasses; classified by the model from the MRO), stability and run() oracles, 30% of the '
+                'configurations x random histories (length <= 12, all 11 hook behaviours, a raising hook raising one of 61 exceptions (import family of a lazily importing hook, programming / data errors, IOError aliases and subclasses; classified by the model from the MRO), stability and run() oracles, 30% of the '
                 'SubmissionFailed/UnknownIssue exits produced by a failing launch); every exit of an ordinary engine goes through the '
                 'real Engine.run() launch/wait/_setExitReason pipeline; plus the real DLMESORestart on generated CONTROL files and the chain '
                 'with the fallback hook in a directory holding such a file; plus the configuration side: generated restartHookOn / shutdownOn '
